@@ -109,6 +109,11 @@ func (e xSpec) render(sb *strings.Builder, sc xScope) {
 		attrs = append(attrs, `xml:lang="en"`)
 	case 4:
 		attrs = append(attrs, `k="1"`, `j=" 2 "`)
+	case 5:
+		// two attributes whose names differ only in their namespace
+		decls = append(decls, `xmlns:a="urn:attr"`, `xmlns:b="urn:attr2"`)
+		sc.prefixes["a"], sc.prefixes["b"] = "urn:attr", "urn:attr2"
+		attrs = append(attrs, `k="plain"`, `a:k="in-a"`, `b:k="in-b"`)
 	}
 	q := local
 	if prefix != "" {
@@ -417,7 +422,7 @@ func c15All() []xSpec {
 	var out []xSpec
 	for n := 0; n < len(xNames); n++ {
 		for s := 0; s < 5; s++ {
-			for a := 0; a < 5; a++ {
+			for a := 0; a < 6; a++ {
 				for c := 0; c < 7; c++ {
 					out = append(out, xSpec{Name: n, NS: s, Attr: a, Content: c})
 				}
@@ -453,7 +458,7 @@ func c15Reduced() []xSpec {
 			out = append(out, xSpec{Name: n, NS: s})
 		}
 	}
-	for a := 1; a < 5; a++ {
+	for a := 1; a < 6; a++ {
 		out = append(out, xSpec{Name: 0, NS: 2, Attr: a}, xSpec{Name: 2, NS: 0, Attr: a})
 	}
 	for c := 1; c < 7; c++ {
@@ -784,7 +789,7 @@ func init() {
 				}
 			}
 		}
-		r.Rule = fmt.Sprintf("every element tree of the family: element = name{A:x,B:y,(none):z,A:y} x namespace expression{inherit, redeclare default, declare prefix, reuse outer prefix, undeclare} x attributes{none, entities, prefixed, xml:lang, two} x content{empty,text,entities+charref,CDATA,comment,mixed,whitespace}; root over all 700 variants x [no child | 1 child over %d variants | 2 children over %d^2]; depth 3 over the reduced set cubed; 4 linear chains of depth 33, 64, 200 and 1000; each captured as the middle child of a DAV:prop with siblings before/after; plus %d typed property documents; non-trivial = every generated document (all distinct)", map[bool]int{false: len(red), true: len(all)}[full], len(pick), len(c15TypedCases()))
+		r.Rule = fmt.Sprintf("every element tree of the family: element = name{A:x,B:y,(none):z,A:y} x namespace expression{inherit, redeclare default, declare prefix, reuse outer prefix, undeclare} x attributes{none, entities, prefixed, xml:lang, two, same local name in three namespaces} x content{empty,text,entities+charref,CDATA,comment,mixed,whitespace}; root over all 840 variants x [no child | 1 child over %d variants | 2 children over %d^2]; depth 3 over the reduced set cubed; 4 linear chains of depth 33, 64, 200 and 1000; each captured as the middle child of a DAV:prop with siblings before/after; plus %d typed property documents; non-trivial = every generated document (all distinct)", map[bool]int{false: len(red), true: len(all)}[full], len(pick), len(c15TypedCases()))
 		r.Explanation = "for each generated well-formed document: T0 = independent namespace-expanded DOM; the RawXMLValue captured by xml.Unmarshal must (a) marshal (alone and inside its Prop) to bytes that encoding/xml re-reads as T0, (b) produce a finite, balanced, well-nested token stream whose tree is T0, (d) leave its siblings correctly decoded; (c) typed decoding through RawXMLValue.Decode / Prop.Decode equals direct xml.Unmarshal of the same element for every typed property structure in 3 namespace styles x 2 whitespace styles"
 		r.Extra["documents"] = len(docs)
 		r.Parallel(len(docs), func(i int, s *engine.Shard) {
